@@ -505,7 +505,7 @@ func xtcpCases(g *gen, dist map[string]int, add func(string, []map[string]string
 		if g.Chance(0.5) {
 			proto = "quic"
 		}
-		runs = append(runs, xtcpRun{proto, a&2 != 0, a&1 != 0, b&2 != 0, b&1 != 0, false, false, mkPayload()[:1+g.Intn(2000)], 1500 * time.Millisecond})
+		runs = append(runs, xtcpRun{proto, a&2 != 0, a&1 != 0, b&2 != 0, b&1 != 0, false, false, g.Bytes(1 + g.Intn(2000)), 1500 * time.Millisecond})
 	}
 	// F-C08e: quic, backend speaks first, user silent
 	runs = append(runs, xtcpRun{"quic", false, false, false, false, true, true, nil, 1200 * time.Millisecond})
